@@ -21,6 +21,10 @@ def conditions(level):
             if level >= 3 and fi not in (0, 2, 5) and len(e) > 40:
                 continue  # depth-3 material: three frames only
             out.append((typ, e, fi, frame.format(e)))
+    # the condition has a parameter of its own (with a default value) that the decorated function does not have
+    for typ, e in expr.all_expressions(1):
+        for fj, frame in enumerate(expr.OWN_DEFAULT_FRAMES):
+            out.append((typ, e, len(expr.FRAMES) + fj, frame.format(e)))
     return out
 
 
@@ -58,7 +62,7 @@ def render_batch(items, extra=None, prelude=""):
         if role == "invariant":
             w.append("    @icontract.invariant(lambda self: {}{})\n    class K{}(Holder):\n        pass\n    fs[{}] = K{}\n".format(cond, extra.get(idx, ""), idx, idx, idx))
         else:
-            ps = ", ".join(expr.free_params(cond))
+            ps = ", ".join(expr.free_params(cond) + expr.own_default_params(cond))
             w.append("    @icontract.{}(lambda {}: {}{})\n    def f{}({}):\n        return 1\n    fs[{}] = f{}\n".format(
                 role, ps, cond, extra.get(idx, ""), idx, allp, idx, idx))
     w.append("    return fs\nFS = make()\n")
@@ -246,9 +250,12 @@ def check_batch(batch, acc, vals, level):
     genv = {}
     exec(expr.GLOBALS_SRC, genv)
     genv.update(expr.CLOSURE)
-    resolvable = set(expr.PARAMS) | {"G", "GL", "IMPOSSIBLE", "C", "CL", "self", "t"}
+    genv.update(expr.OWN_DEFAULTS)
+    resolvable = set(expr.PARAMS) | {"G", "GL", "IMPOSSIBLE", "C", "CL", "self", "t"} | set(expr.OWN_DEFAULTS)
     for idx, (typ, e, fi, cond) in batch:
         role = role_of(idx)
+        if role == "invariant" and expr.own_default_params(cond):
+            role = "require"   # an invariant condition takes nothing but self
         ctext = to_self(cond) if role == "invariant" else cond
         falsy_vals = []
         for vi, val in enumerate(vals):
@@ -260,7 +267,11 @@ def check_batch(batch, acc, vals, level):
             else:
                 env.update(val)
             r = expr.record(ctext, env)
-            if r.error is None and not r.result:
+            try:
+                falsy = r.error is None and not r.result
+            except Exception:
+                falsy = False   # the condition's value has no truth value: Python itself cannot judge it
+            if falsy:
                 r.env = env
                 r.resolvable = resolvable
                 falsy_vals.append((vi, r))
@@ -329,8 +340,9 @@ def work(args):
     warnings.simplefilter("ignore", SyntaxWarning)
     acc = core.Acc()
     vals = expr.valuations()
+    xvals = vals + expr.exotic_valuations()
     for batch, level in args:
-        check_batch(batch, acc, vals, level)
+        check_batch(batch, acc, xvals if level == "exotic" else vals, level)
     return acc.result()
 
 
@@ -338,12 +350,17 @@ def run(tier, t0):
     level = 2 if tier == "quick" else 3
     conds = conditions(level)
     indexed = list(enumerate(conds))
-    batches = [(indexed[i:i + BATCH], level) for i in range(0, len(indexed), BATCH)]
+    # the depth<=2 conditions run on 8 valuations (4..7: objects with unusual __eq__ / truth value), the deeper ones on 4
+    small = {c[3] for c in conditions(2)} if level > 2 else None
+    ex = [it for it in indexed if small is None or it[1][3] in small]
+    rest = [it for it in indexed if small is not None and it[1][3] not in small]
+    batches = [(ex[i:i + BATCH], "exotic") for i in range(0, len(ex), BATCH)] + [(rest[i:i + BATCH], level) for i in range(0, len(rest), BATCH)]
     tot = core.merge(core.pmap(work, core.rotate(batches)))
     return core.finish(
         PROP, tier, tot, t0,
-        rule="typed expression grammar ({} expressions: depth<=1 complete, all parent/child pairs{}) x 6 falsifying frames x 4 "
-             "valuations; kept: every (condition, valuation) CPython evaluates falsy without raising; roles rotate over "
+        rule="typed expression grammar ({} expressions: depth<=1 complete, all parent/child pairs{}) x 6 falsifying frames (depth<=1 also in 3 frames that use a defaulted parameter of the condition itself) x 4 "
+             "valuations (depth<=2 conditions: 8 valuations, four of them binding x, y, the elements of xs and o.v to objects with an unusual "
+             "__eq__ or truth value: equal-to-everything, element-wise ==, never-equal, nan); kept: every (condition, valuation) CPython evaluates falsy without raising; roles rotate over "
              "require/ensure/invariant. The real message is parsed into '<text> was <repr>' lines and all()-blocks; soundness: "
              "each text is a sub-expression Python evaluated (or a call argument) and the repr equals a_repr.repr of a value it "
              "took; the all()-example is the first falsifying assignment; completeness: every representable argument and every "
@@ -353,7 +370,7 @@ def run(tier, t0):
              "non-trivial = every falsy (condition, valuation)".format(
                  len(set(c[1] for c in conds)), ", full products of <=2-slot productions, depth-3 chains" if level >= 3 else ""),
         assumptions=["dict displays with **, inline lambdas, await, yield and starred displays are outside the alphabet",
-                     "values: small ints, lists, strs, dicts, one object; hostile __eq__/__repr__ are outside the alphabet"],
+                     "values: small ints, lists, strs, dicts, one object, four objects with unusual __eq__; raising __repr__ is C11's subject"],
         bounds={"conditions": len(conds), "level": level},
     )
 
@@ -361,7 +378,7 @@ def run(tier, t0):
 def replay(path):
     data = json.load(open(path))["spec"]
     acc = core.Acc()
-    vals = expr.valuations()
+    vals = expr.valuations() + expr.exotic_valuations()
     idx = {"require": 0, "ensure": 7, "invariant": 9}[data["role"]]
     cond = data["cond"]
     check_batch([(idx, ("?", cond, 0, cond))], acc, vals, 3)
